@@ -99,7 +99,11 @@ func loadBaseline(id string) map[string]bool {
 		if l == "" || strings.HasPrefix(l, "#") {
 			continue
 		}
-		out[strings.Fields(l)[0]] = true
+		if i := strings.Index(l, "\t"); i >= 0 {
+			out[l[:i]] = true
+		} else {
+			out[strings.Fields(l)[0]] = true
+		}
 	}
 	return out
 }
@@ -303,7 +307,7 @@ func cmdCheck(args []string) int {
 		fmt.Fprintf(&b, "# obligations of %s discharged on the reference tree (name solver ms)\n", id)
 		sort.Slice(discharged, func(a, c int) bool { return discharged[a].obl.Name < discharged[c].obl.Name })
 		for _, j := range discharged {
-			fmt.Fprintf(&b, "%s %s %d\n", j.obl.Name, j.res.Solver, j.res.Ms)
+			fmt.Fprintf(&b, "%s\t%s\t%d\n", j.obl.Name, j.res.Solver, j.res.Ms)
 		}
 		os.MkdirAll(filepath.Join(verifRoot, "baseline"), 0o755)
 		os.WriteFile(filepath.Join(verifRoot, "baseline", id+".txt"), []byte(b.String()), 0o644)
